@@ -51,6 +51,8 @@ VALUES = {
     "inet-address": [("Host:80", "('host', 80)"), ("8080", "('', 8080)"), ("host:x", None)],
     "locale": [("C", "'C'"), ("no_SUCH.locale", None)],
     "boomkey": [("v1", "'v1'"), ("x", "'x'")],     # zcv.dts.boomkey: identity, raises KeyError on "BOOM"
+    # zcv.dts.dcerr: identity; a text ending in '!' is refused with a DataConversionError of its own (a ValueError)
+    "dcerr": [("v1", "'v1'"), ("x", "'x'"), ("bad!", None)],
 }
 
 
@@ -94,6 +96,8 @@ def convert(dt, text):
     value texts used by the vocabularies: repr of the value, or None."""
     if dt in ("string", "null", "boomkey"):
         return repr(text)
+    if dt == "dcerr":
+        return None if text.endswith("!") else repr(text)
     if dt == "integer":
         v = _integer(text)
         return None if v is None else repr(v)
